@@ -14,6 +14,8 @@ conditions that are visible in the code are:
   WRAP-SPLICE      wrap_in_dbg's result is src[..start] + "dbg(" + src[start..end] + ")" + src[end..] with start/end the two
                    offsets of one expression's position: the literal `dbg(` is part of the format string, and the three slices use start_offset, (start_offset, end_offset), end_offset of the same position.
   SAME-CORE        the language server's code action and the command line both call wrap_in_dbg::wrap_in_dbg.
+  ANNOTATION-OFFERED  (the one shape clause of the other half) annotation_src prints a type as the suggestion only outside
+                   the Error arm of its match and on the false edge of is_no_value().
 Decides these clauses only.
 """
 import json
@@ -150,6 +152,32 @@ def run(ctx, res):
             res.bad("WRAP-SPLICE", "wrap_in_dbg::wrap_in_dbg # splice",
                     "the three slices of the source are not [..start_offset], [start_offset..end_offset], [end_offset..] of one position (found %s, %d position(s), `dbg(` literal: %s): "
                     "text outside the selected expression is lost, duplicated or pulled into the call" % (got, len(bases), has_open), w.loc())
+    # ---- ANNOTATION-OFFERED (the one clause of the add-type-annotation half that is a shape): the text offered as an annotation
+    # is never the printed form of an error type or of NoValue -- the first does not parse as a hint, the second makes
+    # every function that ends in `return e` fail its own return check
+    a = P.require_fn("add_type_annotation::annotation_src")
+    shows = [bi for bi, t in a.calls() if (M.callee_name(t) or "").endswith(("ToString>::to_string", "ToString::to_string")) or "fmt::Display" in (M.callee_name(t) or "")
+             or (M.callee_name(t) or "").endswith("std::fmt::format")]
+    res.floor("ANNOTATION-OFFERED", "places where annotation_src prints the type", len(shows), 1)
+    nv = [sw for sw in D.bool_switches(a) if sw["root"][0] == "call" and (M.callee_name(sw["root"][2]) or "").endswith("Type::is_no_value")]
+    err_regions = set()
+    for sw in D.enum_switches(a):
+        if sw["ety"].endswith("garden_type::Type"):
+            for tgt, names in sw["by_target"].items():
+                if "Error" in names:
+                    err_regions |= D.edge_dominated(a, sw["bb"], tgt)
+            if "Error" in sw["otherwise_variants"]:
+                err_regions |= D.edge_dominated(a, sw["bb"], sw["otherwise"])
+    for b in shows:
+        key = "add_type_annotation::annotation_src # printed type"
+        in_nv_false = any(sw["false"] is not None and b in D.edge_dominated(a, sw["bb"], sw["false"]) for sw in nv)
+        if b in err_regions:
+            res.bad("ANNOTATION-OFFERED", key + " # error-type", "annotation_src prints an error type as the suggested annotation: the result is not a type hint", a.loc(a.blocks[b]["term"].get("span")))
+        elif not in_nv_false:
+            res.bad("ANNOTATION-OFFERED", key + " # no-value", "annotation_src can offer `NoValue` (the type of `return e`) as an annotation: the annotated function then fails "
+                    "its return check although it ran before", a.loc(a.blocks[b]["term"].get("span")))
+        else:
+            res.ok("ANNOTATION-OFFERED", key + ": only outside the Error arm and on the false edge of is_no_value()")
     # ---- SAME-CORE
     E = P.edges()
     core_fn = "wrap_in_dbg::wrap_in_dbg"
